@@ -11,7 +11,19 @@ PATHS = [b"a", b"b", b"ab", b"c", b"a", b"x"]
 CRIT_LENGTHS = [73, 74, 75, 76, 147, 148, 149, 150, 221, 222, 223, 300]
 
 
+# stems that are proper prefixes of each other with the next byte on either side of '|' (0x7c),
+# and long stems sharing their whole first block (74 bytes) and more
+NESTED = [b"a~", b"a\x7f", b"a}", b"a\xc3\xa9", b"ab~", b"a\x80", b"a\xff\xff", b"a{", b"a!"]
+LONG_FAMILY = [c * 80 + t for c in (b"x", b"~") for t in (b"a", b"b", b"", b"~")] + \
+              [c * 150 + t for c in (b"x", b"~") for t in (b"a", b"", b"b")] + [b"x" * 72, b"x" * 71, b"~" * 72]
+
+
 def weird_payload(rng, long_ok=True):
+    r0 = rng.random()
+    if r0 < 0.2:
+        return rng.choice(NESTED)
+    if r0 < 0.4 and long_ok:
+        return rng.choice(LONG_FAMILY)
     r = rng.random()
     if r < 0.25 and long_ok:
         n = rng.choice(CRIT_LENGTHS) - 3   # so that "p:" + payload + "|" hits the critical length
@@ -24,7 +36,12 @@ def weird_payload(rng, long_ok=True):
     return rng.choice(PATHS) + rng.choice(PATHS)
 
 
-def gen_lru(rng, weird=0.15, maxpath=3, long_ok=True):
+WEIRD = 0.15   # share of path stems drawn from the unusual payloads (set per campaign)
+
+
+def gen_lru(rng, weird=None, maxpath=3, long_ok=True):
+    if weird is None:
+        weird = WEIRD
     stems = [b"s:" + rng.choice(SCHEMES)]
     if rng.random() < 0.1:
         stems.append(b"t:" + rng.choice([b"80", b"8080"]))
@@ -91,7 +108,10 @@ def pick_lru(rng, tr, fresh=0.5, **kw):
         l = rng.choice(tr.lrus)
         r = rng.random()
         if r < 0.2:                            # an extension of a known LRU
-            return l + b"p:" + rng.choice(PATHS) + b"|"
+            return l + b"p:" + (weird_payload(rng) if rng.random() < WEIRD else rng.choice(PATHS)) + b"|"
+        if r < 0.26 and l.count(b"|") > 2:     # a sibling of a known LRU (same parent, another last stem)
+            parent = b"".join(x + b"|" for x in l.split(b"|")[:-2])
+            return parent + b"p:" + (weird_payload(rng) if rng.random() < 2 * WEIRD else rng.choice(PATHS)) + b"|"
         if r < 0.3:                            # a stem-prefix of a known LRU
             return rng.choice(stem_prefixes(l))
         return l
@@ -124,6 +144,29 @@ def gen_write(rng, tr, mix):
         if rng.random() < 0.3:
             links.append(list(rng.choice(links)))   # repeated link
         return 4, [links]
+    if name == "batch" and tr.pages and rng.random() < 0.35:
+        # the stale-copy trap: a page cached early in the batch (as a target) gets new nodes hooked onto its
+        # block later in the same batch (first child, or a sibling in its BST), and is then itself a source
+        P = rng.choice(tr.pages)
+        kids = [P + b"p:" + rng.choice(PATHS) + rng.choice([b"", b"1", b"z"]) + b"|" for _ in range(rng.randint(1, 2))]
+        sib = b"".join(x + b"|" for x in P.split(b"|")[:-2]) + b"p:" + rng.choice(PATHS) + rng.choice([b"0", b"zz", b""]) + b"|"
+        S0 = pick_lru(rng, tr)
+        others = [S0, P] + kids + [sib]
+        data = [[S0, [P] + ([rng.choice(others)] if rng.random() < 0.5 else [])]]
+        data.append([rng.choice([sib, kids[0]]), [rng.choice(kids + [sib])]])
+        if P not in [d[0] for d in data]:
+            data.append([P, [rng.choice([S0, P, kids[0]])] if rng.random() < 0.8 else []])
+        seen, out = set(), []
+        for src, tg in data:
+            if src not in seen:
+                seen.add(src)
+                out.append([src, tg])
+        return 5, [out]
+    if name == "add_links" and tr.pages and rng.random() < 0.3:
+        P = rng.choice(tr.pages)
+        kid = P + b"p:" + rng.choice(PATHS) + b"|"
+        S0 = pick_lru(rng, tr)
+        return 4, [[[S0, P], [kid, S0], [P, kid], [P, S0]][: rng.randint(2, 4)]]
     if name == "batch":
         pool = [pick_lru(rng, tr) for _ in range(rng.randint(2, 5))]
         data, seen = [], set()
